@@ -111,7 +111,7 @@ fn viol(sig: String, msg: String, s: &[u8], how: &str) -> Violation {
 
 pub fn run(ctx: &Ctx, replay: Option<&J>) -> CheckResult {
     crate::crc::self_check();
-    let rule = "for every payload length L=0..=1023: frames with random payload and random reserved bits, and near-misses derived \
+    let rule = "for every payload length L=0..=1023: frames with random payload and random reserved bits, frames of that length announcing every supported message number in their first 12 payload bits, and near-misses derived \
         from them (wrong preamble, every truncation length 0..L+5, each checksum bit flipped, checksum byte changed/swapped, \
         length field +-1/random with and without trailing bytes, payload bit flips, trailing bytes, other reserved bits; all 64 reserved-bit patterns for every length = all 65536 header patterns, alone and followed by >1029 bytes, and each again with a payload whose first 1..8 bytes repeat the preamble or a header byte (with truncations); frames at the start of slices of 65535..131077 bytes; frames whose checksum is 0x000000, 0xFFFFFF, 0xD30000 and ten more special values, with their near-misses), plus random \
         and D3-prefixed random slices; oracle = own CRC-24Q acceptance predicate compared with MessageFrame::new incl. \
@@ -220,6 +220,18 @@ pub fn run(ctx: &Ctx, replay: Option<&J>) -> CheckResult {
                             go(&mut ev, &mut vs, &g2[..g2.len() - 1], "header-like-payload-truncated", true);
                             go(&mut ev, &mut vs, &g2[..(4 + k).min(g2.len() - 1)], "header-like-payload-truncated", true);
                         }
+                    }
+                }
+                if rep == 0 && l >= 2 {
+                    // acceptance must not depend on what the payload says: every supported message number (and a few others)
+                    // as the first 12 payload bits of a frame of this length, whatever length that message "should" have
+                    let mut q = p.clone();
+                    let extra = [0u16, 1, 999, 1000, 1306, 4000, 4094, 4095];
+                    for n in crate::registry::MSG_TABLE.iter().map(|r| r.number).chain(extra.iter().copied()) {
+                        q[0] = (n >> 4) as u8;
+                        q[1] = (q[1] & 0x0F) | ((n & 0xF) << 4) as u8;
+                        let g = frame_with_reserved(&q, if n % 3 == 0 { reserved } else { 0 });
+                        go(&mut ev, &mut vs, &g, "valid/every-message-number", true);
                     }
                 }
                 // reserved bits changed *without* fixing the checksum: covered by C04, here just the predicate
